@@ -258,9 +258,26 @@ def _fmt_wrappers(ctx: Ctx) -> None:
     ctx.need(n >= 1, 'C12.R5: no currency formatting wrapper found in the output functions')
 
 
+def _builders_read_only(ctx: Ctx) -> None:
+    """The report builders and exporters only read the analysis: they never change, in place, a list or dict they were handed (the same objects are
+    rendered by the other outputs and by later sections of the same report)."""
+    from ._rows import alias_mutations
+    proj = ctx.proj
+    n = 0
+    for fi in proj.all_funcs():
+        if fi.module.short != 'report' and not (fi.module.short == 'analyzer' and fi.name.startswith(('export_', 'print_', 'build_'))):
+            continue
+        n += 1
+        for st, name, d in alias_mutations(get_flow(proj, fi)):
+            ctx.fail('C12.R5', fi, f'mutates-analysis:{name}', f'{src(st)[:50]!r} changes in place the object that {src(d)[:50]!r} took out of the analysed data: a transaction / merchant '
+                     f'is then rendered with data it never had (tags of other transactions), and the per-category figures no longer add up to the analysed totals', st)
+    ctx.ok('C12.R5', 'report', f'{n} report / export functions change nothing they did not create', construct='mutates-analysis:none')
+
+
 def r5_headline(ctx: Ctx, ws: FuncInfo) -> None:
     proj = ctx.proj
     _fmt_wrappers(ctx)
+    _builders_read_only(ctx)
     # HTML: spending_data entries
     fl = get_flow(proj, ws)
     sd = [s for s in ast.walk(ws.node) if isinstance(s, ast.Assign) and src(s.targets[0]) == 'spending_data' and isinstance(s.value, ast.Dict)]
